@@ -77,6 +77,12 @@ var ValidFamilies = []Family{
 	{"frag-fanout-introspection-deep-undefined", false, func(n int) string {
 		return "query Q { __type(name: \"a\") { ...F0 } } " + fanoutVia(n, "__Type", "fields { type {", "} }", "name ...Nope ...Nope2")
 	}},
+	{"frag-fanout-introspection-two-depths", false, func(n int) string {
+		return "query Q { __schema { types { ...F0 fields { type { ...F0 } } } } } " + fanout(n, "__Type", "name")
+	}},
+	{"frag-fanout-introspection-three-depths", false, func(n int) string {
+		return "query Q { __type(name: \"a\") { ...F0 interfaces { ...F0 possibleTypes { ...F0 } } } a: __schema { types { ...F0 } } } " + fanout(n, "__Type", "name")
+	}},
 	{"frag-fanout-undefined", false, func(n int) string { return "query Q { ...F0 } " + fanout(n, "Query", "id ...Nope") }},
 	{"frag-fanout-subscription", false, func(n int) string { return "subscription S { ...F0 } " + fanout(n, "Subscription", "tick") }},
 	{"frag-fanout-overlap", false, func(n int) string { return "query Q { pet { ...F0 } pet { ...F0 } } " + fanout(n, "Pet", "id") }},
